@@ -103,12 +103,9 @@ fn abs_map(c: &mut Cur, wild_ok: bool) -> AbsMap {
   let nsrc = 1 + c.u8() % 3;
   let nnames = c.u8() % 4;
   let flags = c.u8();
-  let m = AbsMap::new(segs, nsrc, nnames, flags & 1 != 0, (flags >> 1) % 4, (flags >> 3) % 8, (flags >> 6) % 4, wild_ok && c.u8() % 2 == 0);
-  if c.u8() % 4 == 0 {
-    m.with_dups()
-  } else {
-    m
-  }
+  // (no second segment at one position here: only C08 quantifies over such maps - a SourceMapSource hands its
+  // map through verbatim, so C03 / C11 would read the duplicate as the library's doing)
+  AbsMap::new(segs, nsrc, nnames, flags & 1 != 0, (flags >> 1) % 4, (flags >> 3) % 8, (flags >> 6) % 4, wild_ok && c.u8() % 2 == 0)
 }
 
 pub fn spec(c: &mut Cur, depth: u32, cfg: GenCfg) -> Spec {
